@@ -193,7 +193,7 @@ def _mk_builtin_classes():
     mk('re.error', 'Exception')
     mk('PickleError', 'Exception')
     for n in ('int', 'str', 'bytes', 'bytearray', 'list', 'dict', 'set', 'frozenset', 'tuple', 'float', 'bool',
-              'type', 'ABC', 'Enum', 'Flag', 'IntEnum', 'Protocol', 'Generic', 'NoneType', 'TypedDict',
+              'type', 'ABC', 'Enum', 'Flag', 'IntEnum', 'IntFlag', 'Protocol', 'Generic', 'NoneType', 'TypedDict',
               'BaseModel', 'BaseSettings', 'Task', 'Future', 'Lock', 'Event', 'Queue', 'StreamReader',
               'StreamWriter', 'function', 'LoggerAdapter', 'WeakSet', 'WeakValueDictionary', 'OrderedDict',
               'deque', 'Field', 'Struct', 'Timeout', 'Pattern', 'Semaphore'):
